@@ -268,14 +268,14 @@ func (t *c29Tracker) dial(ctx context.Context, addr string, _ *net.Dialer, _ *tl
 
 type c29Run struct {
 	ClientClose map[int]int64 // connection id -> world time of the client's Close call
-	Res       bubble.Result
-	Obs       []*c29Obs
-	Events    []fakeredis.Event
-	NPipeline int   // connections opened by NewClient (the pipelining connection)
-	CloseUs   int64 // world time when Client.Close was called
-	CloseOK   bool
-	Pending   int
-	NewErr    string
+	Res         bubble.Result
+	Obs         []*c29Obs
+	Events      []fakeredis.Event
+	NPipeline   int   // connections opened by NewClient (the pipelining connection)
+	CloseUs     int64 // world time when Client.Close was called
+	CloseOK     bool
+	Pending     int
+	NewErr      string
 }
 
 func c29RunPlan(t *testing.T, plan c29Plan) (run c29Run) {
@@ -681,8 +681,8 @@ func c29Check(c *stat.Collector, rt stat.Fataler, plan c29Plan, run c29Run) (nt 
 	}
 	sort.SliceStable(order, func(i, j int) bool { return order[i].StartUs < order[j].StartUs })
 	type opSummary struct {
-		o       *c29Obs
-		conn    int // -1: its commands never reached the server
+		o        *c29Obs
+		conn     int // -1: its commands never reached the server
 		clean    bool
 		firstUs  int64
 		firstSeq int64
